@@ -318,3 +318,148 @@ func runC10Overlapping(x *X) {
 		}
 	})
 }
+
+// ---- C06: the table's SHAPE changes inside the render: a table-level render-time callback on the table itself
+// (the "fill me in lazily" idiom) adds the header, rows or a separator the first time it runs.  The html output must
+// mirror the table as it stands once its render callbacks have run - the same table every other renderer shows.
+func runC06ShapeFromCallback(x *X) {
+	x.Explore("shape-from-render-callback", ExploreOpts{ShardDepth: 2, Bound: "html table with {no header, 2 headers} and 0-1 rows; a table-level ITSELF callback at {pre-cell, render} time adds, on its first run, {headers (when none), one row, a separator and two rows, headers and a row}; with/without row-class generator; 1-2 renders on one wrapper"}, func(c *Chooser) {
+		hasHeader := c.Bool()
+		nrows := c.Choose(2)
+		when := 1 + c.Choose(2)
+		add := c.Choose(4) // 0 headers, 1 one row, 2 separator + two rows, 3 headers + row
+		gen := c.Bool()
+		if hasHeader && (add == 0 || add == 3) {
+			add = 1
+		}
+		ht := thtml.New()
+		g := &Grid{}
+		if hasHeader {
+			ht.AddHeaders("h<1>", "h2")
+			g.HasHeader, g.Header = true, []string{"h<1>", "h2"}
+		}
+		for i := 0; i < nrows; i++ {
+			ht.AddRowItems("r&1", "x")
+			g.Rows = append(g.Rows, GridRow{Cells: []string{"r&1", "x"}})
+		}
+		in := &c06Input{g: g}
+		var calls []int
+		if gen {
+			ht.SetRowClassGenerator(func(n int, ctx interface{}) template.HTMLAttr {
+				calls = append(calls, n)
+				return template.HTMLAttr(fmt.Sprintf("A%d", n))
+			}, nil)
+			in.gen, in.genTag = true, "A"
+		}
+		done := false
+		if err := registerCB(ht, ht.Table, when, 0, funcCB{func(p tabular.PropertyOwner) {
+			if done {
+				return
+			}
+			done = true
+			if add == 0 || add == 3 {
+				ht.AddHeaders("late<h>", "late2")
+				g.HasHeader, g.Header = true, []string{"late<h>", "late2"}
+			}
+			if add == 1 || add == 3 {
+				ht.AddRowItems("late&row", "\"q\"")
+				g.Rows = append(g.Rows, GridRow{Cells: []string{"late&row", "\"q\""}})
+			}
+			if add == 2 {
+				ht.AddSeparator()
+				ht.AddRowItems("after-sep")
+				ht.AddRowItems("last", "<b>")
+				g.Rows = append(g.Rows, GridRow{Sep: true}, GridRow{Cells: []string{"after-sep"}}, GridRow{Cells: []string{"last", "<b>"}})
+			}
+		}}); err != nil {
+			panic("harness: registering table/ITSELF: " + err.Error())
+		}
+		c.Logf("html table header=%v rows=%d; table-level ITSELF callback at time %d adds shape %d on its first run; generator %v", hasHeader, nrows, when, add, gen)
+		for pass := 0; pass < 1+c.Choose(2); pass++ {
+			x.Transition(1)
+			calls = nil
+			var out string
+			var err error
+			if p, val, site := Safe(func() { out, err = ht.Render() }); p {
+				x.FailSite("C06.no_panic", []string{"shape_from_render_callback", "panic"}, site, "html Render panicked: %v", val)
+				return
+			}
+			x.Clause("C06.succeeds")
+			if err != nil {
+				x.Fail("C06.succeeds", []string{"shape_from_render_callback"}, "html Render failed: %v", err)
+				return
+			}
+			if !c06Validate(x, in, g, []string{"table_shape_changed_by_a_render_callback"}, out, calls, pass) {
+				return
+			}
+		}
+		x.State(fmt.Sprint(hasHeader, nrows, when, add, gen))
+		x.Nontrivial(fmt.Sprint(c.path))
+	})
+}
+
+// ---- C10: the same LIFE of a table (render, edit a cell in place + Update, render again) under every creation
+// path: whatever a creator's wrapper remembered from the first render must not make the second one differ.
+func runC10EditBetweenRenders(x *X) {
+	type fmtR struct {
+		name string
+		pkg  func(t tabular.Table) (string, error)
+	}
+	fmts := []fmtR{{"text", texttable.Render}, {"markdown", markdown.Render}, {"csv", csv.Render}, {"html", func(t tabular.Table) (string, error) { return thtml.Wrap(t).Render() }}, {"json", tjson.Render}}
+	type creator struct {
+		name string
+		mk   func() tabular.Table
+	}
+	creators := []creator{
+		{"texttable.New", func() tabular.Table { return texttable.New() }},
+		{"markdown.New", func() tabular.Table { return markdown.New() }},
+		{"auto.New(ascii-simple)", func() tabular.Table { return auto.New("ascii-simple") }},
+		{"texttable.Wrap(markdown.New())", func() tabular.Table { return texttable.Wrap(markdown.New()) }},
+		{"csv.New", func() tabular.Table { return csv.New() }},
+	}
+	edits := []string{"AFTER!", "a\nb", "wider-than-before", "", "ｗｗｗ"} // "before" is 6 cells on 1 line: same size, two lines, wider, empty, same width other runes
+	x.Explore("edit-between-renders", ExploreOpts{ShardDepth: 2, Bound: fmt.Sprintf("%d creation paths compared with tabular.New: build; render as {nothing, %d formats}; pointer items of a header and a body cell edited in place to %d texts (same size, two lines, wider, empty, same width) + Update; render as each of %d formats through the package-level function", len(creators), len(fmts), len(edits), len(fmts))}, func(c *Chooser) {
+		cr := creators[c.Choose(len(creators))]
+		first := c.Choose(len(fmts) + 1)
+		ed := edits[c.Choose(len(edits))]
+		second := fmts[c.Choose(len(fmts))]
+		life := func(t tabular.Table) (string, error) {
+			hIt, setH := mkItem(mS, true, ItemF{S: "before"})
+			bIt, setB := mkItem(mS, true, ItemF{S: "before"})
+			t.AddHeaders("h1", hIt)
+			t.AddRowItems(bIt, "x")
+			t.AddRowItems("y", "zz")
+			if first > 0 {
+				if _, err := fmts[first-1].pkg(t); err != nil {
+					return "", fmt.Errorf("first render: %v", err)
+				}
+			}
+			setH(ItemF{S: ed})
+			setB(ItemF{S: ed})
+			t.Headers()[1].Update()
+			cp, err := t.CellAt(tabular.CellLocation{Row: 1, Column: 1})
+			if err != nil {
+				panic("harness: CellAt: " + err.Error())
+			}
+			cp.Update()
+			return second.pkg(t)
+		}
+		fn := "nothing"
+		if first > 0 {
+			fn = fmts[first-1].name
+		}
+		c.Logf("creator %s; first render %s; both items edited to %q + Update; second render %s", cr.name, fn, ed, second.name)
+		x.Transition(3)
+		x.Nontrivial(fmt.Sprint(cr.name, first, ed, second.name))
+		var a, b string
+		var ea, eb error
+		if p, val, site := Safe(func() { a, ea = life(tabular.New()); b, eb = life(cr.mk()) }); p {
+			x.FailSite("C10.no_panic", []string{"edit_between_renders", "panic"}, site, "panicked: %v", val)
+			return
+		}
+		x.Clause("C10.same_bytes")
+		if a != b || (ea != nil) != (eb != nil) {
+			x.Fail("C10.same_bytes", []string{"edit_between_renders", "format:" + second.name, "creator:" + cr.name}, "after render(%s), edit to %q + Update: %s.Render of a tabular.New table gives (err %v)\n%s\nbut of a %s table with the same life gives (err %v)\n%s", fn, ed, second.name, ea, a, cr.name, eb, b)
+		}
+	})
+}
